@@ -114,6 +114,9 @@ var c06Positions = []struct{ name, text string }{
 // statement-level faults (redeclaration, stray control) with their own positions
 var c06StmtFaults = []struct{ kind, stmt string }{
 	{"redeclare", "ধরি d = 2;"}, {"redeclare", "ধরি un; ধরি un = 5;"}, {"redeclare", "ধরি un = nil; ধরি un;"}, {"redeclare", "ধরি un; un = nil; ধরি un = 1;"}, {"redeclare", "ধরি un = 0; ধরি un;"}, {"redeclare", "ধরি un = \"\"; ধরি un = 2;"}, {"redeclare", "ধরি un = মিথ্যা, un = 3;"}, {"redeclare", "ধরি nn = 1, nn = 2;"}, {"redeclare", "ধরি arr;"},
+	{"scope-exit", "{ ফাংশন hlp() { দেখাও \"h\"; } hlp(); } hlp();"}, {"scope-exit", "যদি (1) { ফাংশন hlp() { ফেরত 1; } দেখাও hlp(); } দেখাও hlp();"}, {"scope-exit", "{ ধরি lv = 1; দেখাও lv; } দেখাও lv;"},
+	{"scope-exit", "ফর (ধরি li = 0; li < 1; li = li + 1) { দেখাও li; } দেখাও li;"}, {"scope-exit", "ফর (ধরি li = 0, lj = 5; li < 1; li = li + 1) { } lj = 1;"}, {"scope-exit", "{ ধরি lv = 1, lw = 2; } দেখাও lw;"}, {"scope-exit", "ফাংশন outerf(pv) { ফাংশন innerf() { ফেরত pv; } ফেরত innerf(); } দেখাও outerf(3); innerf();"},
+	{"scope-exit", "ফাংশন pf(pv) { ফেরত pv; } দেখাও pf(2); দেখাও pv;"}, {"scope-exit", "যতক্ষণ (x < 1) { x = x + 1; ফাংশন wf() { } } wf();"},
 	{"stray", "থামো;"}, {"stray", "চালিয়ে_যাও;"}, {"stray", "ফেরত 5;"},
 }
 var c06StmtPositions = []struct{ name, text string }{
